@@ -224,16 +224,21 @@ def main(modname, tier, seed, replay=None, extra_result_hook=None):
         seen.add(key)
         path = save_replay(mod.PID, {"property": mod.PID, "module": modname, "case": f["case"], "why": f["why"], "detail": f.get("detail")})
         bad = 0
-        for _ in range(3):
+        # default: a failure must reproduce 3 times out of 3.  A module whose failures depend on the thread schedule (C13) sets
+        # CONFIRM = (tries, needed): the case is re-run up to `tries` times and counts when it fails again `needed` times
+        tries, needed = getattr(mod, "CONFIRM", (3, 3))
+        for _ in range(tries):
             oc = replay_case(mod, f["case"], ctx)
             if not oc.ok:
                 bad += 1
+                if bad >= needed:
+                    break
             elif oc.inconclusive and "harness exception" in (oc.why or ""):
                 print("INFRA: replay of a reported failure crashed in the harness:\n" + oc.why)
                 res.extra["infra_errors"] = 1
                 res.write_evidence()
                 return 2
-        if bad == 3:
+        if bad >= needed:
             res.violations.append((path, f["why"]))
         else:
             res.flaky.append({"replay": path, "reproduced": bad, "why": f["why"]})
